@@ -32,11 +32,13 @@ def prop(pid, **kw):
 prop("C10",
      axioms="reals",
      design_ref="DESIGN.md section 5 C10",
-     technique="Rocq proof over the column table + in-Coq correspondence (vm_compute) against the real decoder",
+     technique="Rocq proof over the column table and, through Flocq's Bmult/Bminus/Bdiv correctness, real-number error bounds of every conversion for all float64 values + in-Coq correspondence (vm_compute) against the real decoder",
      text="Theorems over the model of Decoder.columns / parseFloat64 / units.go: every dual-unit quantity's imperial "
           "and metric headers target the same record field, the metric column stores the parsed number, the imperial "
           "column stores exactly the imperial->metric conversion, float columns commute (column order), constants are "
-          "within their printed precision of the exact definitions.  The model is tied to the code by running the real "
+          "within their printed precision of the exact definitions.  Over the reals (C10_imperial_real): for every float64 v with |v| <= 2^1000 "
+          "the stored feet/miles/PSI value is within 3*2^-53 relative (+2^-1075) of v times the decimal constant of units.go, and it is the correctly "
+          "rounded product; Fahrenheit is (v-32)*5/9 with one half-ulp per operation (C10_fahrenheit_real).  The model is tied to the code by running the real "
           "decoder on generated one-row logs and comparing the stored bits with the model evaluated inside Coq.",
      rule="one case = (one of the 18 unit columns, one decimal cell text, one of 3 column layouts); cells are generated "
           "(sign, 0-6 integer digits, 0-6 and occasionally up to 20 fraction digits) plus a fixed list of specials; "
